@@ -22,6 +22,7 @@ ASSUMPTIONS = ['the punctuation inventories are the documented ones, written '
                'afterwards']
 WATCHDOG = {'quick': 600, 'thorough': 3600}
 LONG_SENTENCES = 3      # floor for the stratum the runner adds (gen.maybe_long)
+PIPELINE_CASES = {'quick': 500, 'thorough': 20000}   # vt/pipeline.py
 MIN = {'quick': {'distinct': 1500,
                  'hooks': {'transform.punctuation_verylow': 2000,
                            'transform.punctuation_root': 2000,
